@@ -96,6 +96,16 @@ def configs(tier):
                 for mode in ("noise", "planted"):
                     c.append({"gene": g, "genome": genome, "cn": cn, "major": major,
                               "mode": mode, "phase": None})
+    # major solutions that hand over a novel (non-catalogued) variant at a catalogued site
+    for genome in ("hg19", "hg38"):
+        c.append({"gene": "toy", "genome": genome, "cn": ["1", "1"], "major": {"1": 2},
+                  "mode": "noise", "phase": None, "added": True})
+        c.append({"gene": "GA", "genome": genome, "cn": ["1", "1"],
+                  "major": {"1": 1, "4": 1}, "mode": "noise", "phase": None, "added": True})
+        if tier == "thorough":
+            c.append({"gene": "GB", "genome": genome, "cn": ["1", "1"],
+                      "major": {"2": 1, "5": 1}, "mode": "noise", "phase": None,
+                      "added": True})
     # phase configurations (concrete fragment patterns over catalogued sites)
     for genome in ("hg19", "hg38"):
         c.append({"gene": "toy", "genome": genome, "cn": ["1", "1"],
@@ -116,8 +126,23 @@ class FakeSam:
         self.name = "verif"
 
 
-def considered(gene, major):
-    muts = set()
+def novel_variants(gene, major, how):
+    """a variant that is not in the catalogue, placed at the site of a catalogued SNP of
+    the called alleles (the major stage can hand such variants over as 'added')."""
+    if not how:
+        return []
+    base = considered(gene, major)
+    snps = [m for m in base if len(m.op) == 3 and m.op[1] == ">"]
+    if not snps:
+        return []
+    m = snps[0]
+    other = [b for b in "ACGT" if b not in (m.op[0], m.op[2])
+             and (m.pos, f"{m.op[0]}>{b}") not in gene.mutations][0]
+    return [Mutation(m.pos, f"{m.op[0]}>{other}")]
+
+
+def considered(gene, major, added=()):
+    muts = set(added)
     for a in major:
         muts |= set(gene.alleles[a].func_muts)
         for mi in gene.alleles[a].minors.values():
@@ -162,7 +187,8 @@ def run_config(cfg):
     cn_list = list(cfg["cn"])
     major = dict(cfg["major"])
     profile = Profile("verif")
-    muts = considered(gene, major)
+    added = novel_variants(gene, major, cfg.get("added"))
+    muts = considered(gene, major, added)
     cands = minors_of(gene, major)
     cn_sol = CNSolution(gene, 0, cn_list)
     base, xs, counts, totals = [], {}, {}, {}
@@ -204,7 +230,8 @@ def run_config(cfg):
         phases = make_phases(gene, muts, cfg["phase"])
         sam = FakeSam(phases)
     cov = stagelib.SymCoverage(gene, profile, counts, totals, sam=sam)
-    msol = MajorSolution(0, {SolvedAllele(gene, a): c for a, c in major.items()}, cn_sol, [])
+    msol = MajorSolution(0, {SolvedAllele(gene, a): c for a, c in major.items()}, cn_sol,
+                         list(added))
     eng = Engine(name="c04", timeout_ms=120000)
     saved_max = minor.__dict__.get("max")
     minor.max = symx.smax
@@ -265,6 +292,7 @@ def check_path(eng, res, cfg, gene, cn_list, major, profile, muts, cands, counts
                xs, planted, phases, m, pidx):
     tag = (f"{cfg['gene']}/{cfg['genome']}/{','.join(cn_list)}/"
            f"{'+'.join(f'{k}x{v}' for k, v in major.items())}/{cfg['mode']}"
+           + ("/novel" if cfg.get("added") else "")
            + (f"/phase{cfg['phase']}" if cfg.get("phase") else ""))
     if m is None:
         ob(res, f"{tag}: a model is built", "sat")
@@ -778,7 +806,8 @@ def violation(eng, res, cfg, xs, totals, hyps, obj, label, key):
             continue
         tried += 1
         rp = c02.make_replay(cfg, xs, totals, mm)
-        rp.update({"kind": "minor", "major": cfg["major"], "phase": cfg.get("phase")})
+        rp.update({"kind": "minor", "major": cfg["major"], "phase": cfg.get("phase"),
+                   "added": cfg.get("added")})
         okk, msg = replay(rp)
         res["stats"]["replays"] = res["stats"].get("replays", 0) + 1
         if okk:
@@ -803,14 +832,15 @@ def replay(o):
     counts = c02.concrete_counts(gene, o)
     profile = Profile("replay")
     major = dict(o["major"])
-    muts = considered(gene, major)
+    added = novel_variants(gene, major, o.get("added"))
+    muts = considered(gene, major, added)
     sam = None
     if o.get("phase"):
         sam = FakeSam(make_phases(gene, muts, o["phase"]))
     cov = stagelib.concrete_coverage(gene, profile, counts, sam=sam)
     cn_sol = CNSolution(gene, 0, list(o["cn"]))
     msol = MajorSolution(0, {SolvedAllele(gene, a): c for a, c in major.items()},
-                         cn_sol, [])
+                         cn_sol, list(added))
     seen = {}
     real = minor.solve_minor_model
 
